@@ -372,8 +372,8 @@ impl TargetScheme for Operator {
                 exp.compile(buffer, ctx)?;
                 buffer.push_str(")");
             }
-            // We are not supposed to encounter explicit precendence in the AST
-            Operator::Precedence(_) => unreachable!(),
+            // The parser leaves no explicit precedence in the AST; in a tree built by hand it only groups
+            Operator::Precedence(exp) => exp.compile(buffer, ctx)?,
         }
 
         Ok(())
